@@ -19,10 +19,18 @@ def run_one(s):
         # a SIBLING static sampler made from the same base sampler afterwards, with another interval: the two are independent objects
         # (event "sib" = a call on the sibling, a stutter for the sampler under observation)
         sib = base.make_static(iv(2 if s["iv0"] != 2 else 1000))
+        # every third static history runs through a SUM: the observed static sampler is the first part of (part + other static sampler);
+        # calls go to the sum, make_static(iv) to the part; the identity of the part's point set = the first three rows of the sum
+        via_sum = kind == "static" and (s["tid"] % 3 == 0 or s["iv0"] >= 1000) and all(op["a"] != "next" for op in s["ops"])
+        part = smp
+        if via_sum:
+            smp = part + tp.samplers.RandomUniformSampler(dom, n_points=2).make_static()
         seen = []
 
         def ident(p):
             t = p.as_tensor.detach().clone()
+            if via_sum:
+                t = t[:3]
             for i, u in enumerate(seen):
                 if u.shape == t.shape and torch.equal(u, t):
                     return i + 1
@@ -30,9 +38,12 @@ def run_one(s):
             return len(seen)
         for op in s["ops"]:
             if op["a"] == "restatic":
-                r = watched(lambda: smp.make_static(iv(op["iv"])))
+                r = watched(lambda: (part if via_sum else smp).make_static(iv(op["iv"])))
                 if r[0] == "ok":
-                    smp = r[1]
+                    if via_sum:
+                        part = r[1]
+                    else:
+                        smp = r[1]
                     ev.append({"a": "restatic", "iv": op["iv"], "ret": 0})
                 else:
                     ev.append({"a": "restatic", "iv": op["iv"], "ret": 0, "exc": r[1] if len(r) > 1 else r[0]})
